@@ -13,10 +13,14 @@ import RuxModel.Lemmas.Gates
   no credentials ⇒ 401 with a WWW-Authenticate challenge               C20_basic_auth_401, C20_basic_auth_response
   otherwise (unknown user / wrong password) ⇒ 403                       C20_basic_auth_403, C20_basic_auth_response
   nothing downstream runs after a denial                                C20_basic_auth (trace has no event of a later
-                                                                         handler), C20_basic_auth_served
+                                                                         handler), C20_basic_auth_trace (the exact
+                                                                         trace), C20_basic_auth_aborts (the handler
+                                                                         never calls Next and aborts iff it denies),
+                                                                        C20_basic_auth_served
   "well-formed Basic credentials" (the header parser)                   C20_parse_set_roundtrip (what SetBasicAuth
                                                                          produces is parsed back), C20_parse_rejects
-                                                                         (no header, empty header, wrong scheme)
+                                                                         (no header, empty header, wrong scheme),
+                                                                        C20_parse_scheme_case ("basic " in any case)
   override only for POST, only to PUT/PATCH/DELETE, from the form       C20_override (as in DESIGN.md §6),
     value else the header, upper-cased, original recorded;              C20_override_complete (it DOES rewrite when
     every other request untouched                                        it may), C20_override_non_post,
@@ -34,8 +38,11 @@ import RuxModel.Lemmas.Gates
   * that `net/http`'s `Request.BasicAuth`, `FormValue`, `Header.Get` and `strings.ToUpper` behave like
     `requestBasicAuth`, `formValue` and ASCII upper-casing (differentially tested on generated headers,
     bodies and query strings; the decision theorems take their results as parameters);
-  * the general onion theorem for arbitrary native middleware around the gate (that is C04/C05); here the
-    gate is the first handler of the chain segment `basicAuth :: rest` at an arbitrary position `i`;
+  * statements about arbitrary handlers IN FRONT of the gate (they may abort or answer before it runs):
+    the gate theorems are about the chain segment `basicAuth :: rest` at an arbitrary position `i`; how
+    such a segment is embedded in a longer chain is the recursion of `onion` (lemma `chain_runs_onion`
+    ties it to the cursor loop for every chain of at most 63 handlers), the properties of that embedding
+    are C04/C05's;
   * rux's `responseWriter` (C08): `respOf` is a small model of "lazy status, first write commits".
 -/
 namespace Rux
